@@ -275,6 +275,19 @@ func replayOnly() int {
 			knownKeys = append(knownKeys, e.key)
 		}
 	}
+	if rf.Kind == "support" {
+		reached, n, err := rb.sample(dir, *replayFile, knownKeys, rf.Label)
+		if err != nil {
+			fmt.Fprintln(os.Stderr, "replay:", err)
+			return 2
+		}
+		fmt.Printf("replay of %s (support %q): outcome produced in %d native runs with the real generator: %v\n", rf.Harness, rf.Label, n, reached)
+		if reached {
+			return 0
+		}
+		fmt.Printf("VIOLATION property=%s replay=%s\n", *prop, *replayFile)
+		return 1
+	}
 	res, err := rb.run(dir, *replayFile, knownKeys, 10*time.Second)
 	if err != nil {
 		fmt.Fprintln(os.Stderr, "replay:", err)
@@ -433,7 +446,7 @@ func (rb *replayBuilder) build(dirs map[string]bool) {
 		}
 		return
 	}
-	bdir := filepath.Join(*verifDir, "build", "replay-"+*prop)
+	bdir := filepath.Join(*verifDir, "build", "replay-"+*prop+os.Getenv("GOSYM_BUILD_SUFFIX"))
 	os.MkdirAll(bdir, 0o755)
 	repl := map[string]string{}
 	for virt, data := range overlay {
@@ -518,10 +531,14 @@ func pkgNameOf(src string) string {
 // (installed by the replay driver) which returns recorded outcomes.
 func patchRand(src string) string {
 	src = strings.Replace(src, "func Int63() int64 { return globalRand().Int63() }",
-		"// VerifNext, when set, supplies recorded outcomes (kind \"rand.int\" or \"rand.f64\").\nvar VerifNext func(kind string) (int64, float64, bool)\n\nfunc Int63() int64 {\n\tif VerifNext != nil {\n\t\tif v, _, ok := VerifNext(\"rand.int\"); ok {\n\t\t\treturn v\n\t\t}\n\t}\n\treturn globalRand().Int63()\n}", 1)
+		"// VerifNext, when set, supplies recorded outcomes (kind \"rand.int\" or \"rand.f64\").\nvar VerifNext func(kind string, n int64) (int64, float64, bool)\n\nfunc Int63() int64 {\n\tif VerifNext != nil {\n\t\tif v, _, ok := VerifNext(\"rand.int\", 0); ok {\n\t\t\treturn v\n\t\t}\n\t}\n\treturn globalRand().Int63()\n}", 1)
 	intHook := func(name, sig, conv, call string) {
+		bound := "0"
+		if strings.HasSuffix(call, "(n)") {
+			bound = "int64(n)"
+		}
 		old := "func " + name + sig + " { return globalRand()." + call + " }"
-		neu := "func " + name + sig + " {\n\tif VerifNext != nil {\n\t\tif v, _, ok := VerifNext(\"rand.int\"); ok {\n\t\t\treturn " + conv + "(v)\n\t\t}\n\t}\n\treturn globalRand()." + call + "\n}"
+		neu := "func " + name + sig + " {\n\tif VerifNext != nil {\n\t\tif v, _, ok := VerifNext(\"rand.int\", " + bound + "); ok {\n\t\t\treturn " + conv + "(v)\n\t\t}\n\t}\n\treturn globalRand()." + call + "\n}"
 		src = strings.Replace(src, old, neu, 1)
 	}
 	intHook("Int", "() int", "int", "Int()")
@@ -530,16 +547,16 @@ func patchRand(src string) string {
 	intHook("Intn", "(n int) int", "int", "Intn(n)")
 	fHook := func(name string) {
 		old := "func " + name + "() float64 { return globalRand()." + name + "() }"
-		neu := "func " + name + "() float64 {\n\tif VerifNext != nil {\n\t\tif _, f, ok := VerifNext(\"rand.f64\"); ok {\n\t\t\treturn f\n\t\t}\n\t}\n\treturn globalRand()." + name + "()\n}"
+		neu := "func " + name + "() float64 {\n\tif VerifNext != nil {\n\t\tif _, f, ok := VerifNext(\"rand.f64\", 0); ok {\n\t\t\treturn f\n\t\t}\n\t}\n\treturn globalRand()." + name + "()\n}"
 		src = strings.Replace(src, old, neu, 1)
 	}
 	fHook("Float64")
 	fHook("NormFloat64")
 	fHook("ExpFloat64")
 	src = strings.Replace(src, "func Perm(n int) []int { return globalRand().Perm(n) }",
-		"func Perm(n int) []int {\n\tif VerifNext != nil {\n\t\tm := make([]int, n)\n\t\tgood := true\n\t\tfor i := range m {\n\t\t\tv, _, ok := VerifNext(\"rand.int\")\n\t\t\tif !ok {\n\t\t\t\tgood = false\n\t\t\t\tbreak\n\t\t\t}\n\t\t\tm[i] = int(v)\n\t\t}\n\t\tif good {\n\t\t\treturn m\n\t\t}\n\t}\n\treturn globalRand().Perm(n)\n}", 1)
+		"func Perm(n int) []int {\n\tif VerifNext != nil {\n\t\tm := make([]int, n)\n\t\tgood := true\n\t\tfor i := range m {\n\t\t\tv, _, ok := VerifNext(\"rand.int\", int64(n))\n\t\t\tif !ok {\n\t\t\t\tgood = false\n\t\t\t\tbreak\n\t\t\t}\n\t\t\tm[i] = int(v)\n\t\t}\n\t\tif good {\n\t\t\treturn m\n\t\t}\n\t}\n\treturn globalRand().Perm(n)\n}", 1)
 	src = strings.Replace(src, "func Shuffle(n int, swap func(i, j int)) { globalRand().Shuffle(n, swap) }",
-		"func Shuffle(n int, swap func(i, j int)) {\n\tif VerifNext != nil {\n\t\tfor i := n - 1; i > 0; i-- {\n\t\t\tv, _, ok := VerifNext(\"rand.int\")\n\t\t\tif !ok {\n\t\t\t\tpanic(\"verif: rand tape exhausted in Shuffle\")\n\t\t\t}\n\t\t\tswap(i, int(v))\n\t\t}\n\t\treturn\n\t}\n\tglobalRand().Shuffle(n, swap)\n}", 1)
+		"func Shuffle(n int, swap func(i, j int)) {\n\tif VerifNext != nil {\n\t\tfor i := n - 1; i > 0; i-- {\n\t\t\tv, _, ok := VerifNext(\"rand.int\", int64(i+1))\n\t\t\tif !ok {\n\t\t\t\tpanic(\"verif: rand tape exhausted in Shuffle\")\n\t\t\t}\n\t\t\tswap(i, int(v))\n\t\t}\n\t\treturn\n\t}\n\tglobalRand().Shuffle(n, swap)\n}", 1)
 	return src
 }
 
@@ -552,6 +569,30 @@ type replayResult struct {
 	ExitCode int      `json:"-"`
 	Race     bool     `json:"-"`
 	Raw      string   `json:"-"`
+}
+
+// sample runs the harness natively many times with the real random generator and random
+// values for the harness's own nondet inputs, and reports whether the label was ever reached
+// (confirmation of a support violation; the deciding step is the exhaustive exploration).
+func (rb *replayBuilder) sample(dir, replayFile string, knownKeys []string, label string) (bool, int, error) {
+	const runs = 20000
+	os.Setenv("VERIF_REPEAT", strconv.Itoa(runs))
+	defer os.Unsetenv("VERIF_REPEAT")
+	res, err := rb.run(dir, replayFile, knownKeys, 100*time.Second)
+	if err != nil {
+		return false, 0, err
+	}
+	if res.Outcome != "ok" {
+		return false, 0, fmt.Errorf("native sampling ended with %s %s %s", res.Outcome, res.Label, firstLine(res.Msg))
+	}
+	done := runs
+	fmt.Sscanf(res.Msg, "%d runs", &done)
+	for _, l := range res.Reached {
+		if l == label {
+			return true, done, nil
+		}
+	}
+	return false, done, nil
 }
 
 func (rb *replayBuilder) run(dir, replayFile string, knownKeys []string, watchdog time.Duration) (*replayResult, error) {
